@@ -15,9 +15,18 @@ Model of `breezy/reconfigure.py`:
   (NoBindLocation) and `apply` in its real order — a failure in the middle of
   `apply` leaves the steps before it done (`reconfigure` returns the state
   reached together with the error);
+* what `apply` does to the observation: replacing the local branch by a
+  reference to the branch at the bind location makes THAT branch's tip and
+  history the location's (`stBranch`; `_check` refuses it when the tips differ,
+  `force` skips `_check`), and merges the local tags into it
+  (`Tags.merge_to` = `_reconcile_tags` without overwrite: `mergeTo`);
 
-and of `breezy/upgrade.py: Convert` at the level the property speaks about: a
-conversion changes the format tag of the location and nothing else.
+and of `breezy/upgrade.py: Convert.convert` + `breezy/bzr/bzrdir.py:
+ConvertMetaToMeta.convert` + the branch / working tree converters
+(`Converter5to6`, `6to7`, `7to8`, `Converter3to4`, `4to5`, `4or5to6`): which
+converters run, in which order and in how many passes (`upgradePass`,
+`upgrade`), and what each does to the data the observation is read from
+(`UBranch`, `UTree`).
 
 The observation of a location (`Obs`): branch tip, the history behind it
 (revision → testament map, abstracted to a code), the tag dictionary and the
@@ -42,6 +51,23 @@ inductive RK where
   | shared
   deriving DecidableEq, Repr
 
+/-- a tag dictionary: (name, revision) pairs, the first pair of a name counts -/
+abbrev Tags := List (Nat × Nat)
+
+def lookupTag : Tags → Nat → Option Nat
+  | [], _ => none
+  | (k, v) :: rest, n => if k == n then some v else lookupTag rest n
+
+/-- `_reconcile_tags(source, dest, overwrite=False)`: the destination keeps its
+definitions; names only the source has are added; a name with two different
+definitions is a conflict and keeps the destination's -/
+def mergeTo : Tags → Tags → Tags
+  | [], dest => dest
+  | (k, v) :: rest, dest =>
+    match lookupTag dest k with
+    | some _ => mergeTo rest dest
+    | none => mergeTo rest (dest ++ [(k, v)])
+
 structure Loc where
   tree : Bool
   /-- the working tree has pending changes (meaningful when `tree`) -/
@@ -52,14 +78,19 @@ structure Loc where
   sharedAbove : Bool
   /-- `_select_bind_location` finds a location (bound / old bound / push / parent location, or the referenced branch) -/
   bindKnown : Bool
-  /-- the branch at that location has the same tip as the local branch -/
-  synced : Bool
   format : Nat
   tip : Nat
   hist : Nat
-  tags : Nat
+  tags : Tags
   treeCode : Nat
+  /-- tip, history and tags of the branch at the bind location (meaningful when `bindKnown`) -/
+  refTip : Nat
+  refHist : Nat
+  refTags : Tags
   deriving DecidableEq, Repr
+
+/-- `reference_branch.last_revision() == self.local_branch.last_revision()` -/
+def Loc.synced (l : Loc) : Bool := l.refTip == l.tip
 
 /-- content code of the clean tree of a revision -/
 def cleanCode (tip : Nat) : Nat := 2 * tip + 1
@@ -67,7 +98,7 @@ def cleanCode (tip : Nat) : Nat := 2 * tip + 1
 structure Obs where
   tip : Nat
   hist : Nat
-  tags : Nat
+  tags : Tags
   tree : Option (Nat × Bool)
   deriving DecidableEq, Repr
 
@@ -146,9 +177,16 @@ def stTree (f : Flags) (l : Loc) : Loc :=
 /-- `create_repository` (+ fetch of the branch's history) -/
 def stRepo (f : Flags) (l : Loc) : Loc := if f.createRepository then { l with repo := .own } else l
 
-/-- `destroy_branch` + `set_branch_reference`, or `destroy_branch` (reference) + `create_branch` -/
+/-- `local_branch.tags.merge_to(reference_branch.tags)` + `destroy_branch` +
+`set_branch_reference(reference_branch)`: from now on the location shows the
+referenced branch — its tip, its history, its (merged) tags;
+or `destroy_branch` (reference) + `create_branch` + `set_last_revision_info` +
+`referenced_branch.tags.merge_to(local_branch.tags)`: the new branch is a copy
+of what the reference showed -/
 def stBranch (f : Flags) (l : Loc) : Loc :=
-  if f.createReference then { l with branch := .reference, bindKnown := true }
+  if f.createReference then
+    { l with branch := .reference, bindKnown := true, tip := l.refTip, hist := l.refHist,
+             tags := mergeTo l.tags l.refTags, refTags := mergeTo l.tags l.refTags }
   else if f.createBranch then { l with branch := .unbound, bindKnown := false }
   else l
 
@@ -189,8 +227,189 @@ def runAll (force : Bool) : List Target → Loc → Loc
   | [], l => l
   | t :: ts, l => runAll force ts (reconfigure t force l).1
 
-/-- `upgrade`: only the format tag changes; `none` = UpToDateFormat -/
-def convert (fmt : Nat) (l : Loc) : Option Loc :=
-  if l.format = fmt then none else some { l with format := fmt }
+/-- the layout a `to_*` factory stands for (= the factory plans no change) -/
+def layoutIs : Target → Loc → Bool
+  | .branch, l => !l.tree && l.branch == .unbound && l.repo != .none
+  | .tree, l => l.tree && l.branch == .unbound && l.repo != .none
+  | .checkout, l => l.tree && l.branch == .bound && l.repo != .none
+  | .lightweightCheckout, l => l.tree && l.branch == .reference && l.repo != .own
+  | .standalone, l => l.repo == .own
+  | .useShared, l => l.repo != .own
+
+/-! ## format upgrade -/
+
+/-- the converters `ConvertMetaToMeta.convert` can run -/
+inductive Step where
+  | repoCopy | b5to6 | b6to7 | b7to8 | t3to4 | t4to5 | t4or5to6
+  deriving DecidableEq, Repr
+
+/-- the branch data the observation is read from.  Format 5 keeps the whole
+mainline in `revision-history`; format 6 and later keep `last-revision`
+= (revno, revision) and a tag dictionary; 7 adds the stacked-on location, 8 the
+reference table.  Revision 0 is `null:`. -/
+structure UBranch where
+  fmt : Nat
+  revHistory : List Nat
+  lastRev : Nat × Nat
+  parent : Option Nat
+  bound : Option Nat
+  push : Option Nat
+  tags : Tags
+  deriving DecidableEq, Repr
+
+/-- `last_revision_info()`: format 5 = (len(history), history[-1] or null:), later = the `last-revision` file -/
+def UBranch.info (b : UBranch) : Nat × Nat :=
+  if b.fmt == 5 then
+    match b.revHistory.getLast? with
+    | none => (0, 0)
+    | some r => (b.revHistory.length, r)
+  else b.lastRev
+
+/-- format 5 has no tag support: its tag dictionary reads as empty -/
+def UBranch.tagsSeen (b : UBranch) : Tags := if b.fmt == 5 then [] else b.tags
+
+/-- the working tree data: format 3 keeps `last-revision` + `pending-merges`
+files and an XML inventory, formats 4-6 a dirstate whose header holds the
+parent list.  `inv` is the inventory + content code. -/
+structure UTree where
+  fmt : Nat
+  lastRevision : Nat
+  pendingMerges : List Nat
+  dsParents : List Nat
+  inv : Nat
+  deriving DecidableEq, Repr
+
+/-- `get_parent_ids()` -/
+def UTree.parents (t : UTree) : List Nat :=
+  if t.fmt == 3 then (if t.lastRevision == 0 then [] else [t.lastRevision]) ++ t.pendingMerges
+  else t.dsParents
+
+structure ULoc where
+  /-- repository format class (none: no repository in this control directory) -/
+  repo : Option Nat
+  /-- revisions in the repository (code; `CopyConverter` fetches all of them) -/
+  revs : Nat
+  branch : Option UBranch
+  tree : Option UTree
+  deriving DecidableEq, Repr
+
+/-- target component formats of a metadir format (`default` = 2a: repository 2a, branch 7, tree 6) -/
+structure UTarget where
+  repo : Nat
+  branch : Nat
+  tree : Nat
+  deriving DecidableEq, Repr
+
+inductive UErr where
+  | upToDate
+  | badConversionTarget
+  deriving DecidableEq, Repr
+
+/-- `Converter5to6.convert`, `Converter6to7.convert`, `Converter7to8.convert` -/
+def stepBranch (s : Step) (b : UBranch) : UBranch :=
+  match s with
+  | .b5to6 => { b with fmt := 6, lastRev := b.info, tags := [], revHistory := [] }
+  | .b6to7 => { b with fmt := 7 }
+  | .b7to8 => { b with fmt := 8 }
+  | _ => b
+
+/-- which branch converter the `while old != new` loop picks -/
+def branchStep (old new : Nat) : Option Step :=
+  if old == 5 && (new == 6 || new == 7 || new == 8) then some .b5to6
+  else if old == 6 && (new == 7 || new == 8) then some .b6to7
+  else if old == 7 && new == 8 then some .b7to8
+  else none
+
+/-- the `while old != new` loop of `ConvertMetaToMeta.convert` (fuel: each converter raises the format by one) -/
+def branchLoop : Nat → Nat → UBranch → Except UErr (UBranch × List Step)
+  | 0, new, b => if b.fmt == new then .ok (b, []) else .error .badConversionTarget
+  | fuel + 1, new, b =>
+    if b.fmt == new then .ok (b, [])
+    else match branchStep b.fmt new with
+      | none => .error .badConversionTarget
+      | some s =>
+        match branchLoop fuel new (stepBranch s b) with
+        | .error e => .error e
+        | .ok (b', ss) => .ok (b', s :: ss)
+
+/-- `Converter3to4.convert` (`DirState.from_tree`: the parents are `get_parent_ids()`), `4to5`, `4or5to6` (format marker) -/
+def stepTree (s : Step) (t : UTree) : UTree :=
+  match s with
+  | .t3to4 => { t with fmt := 4, dsParents := t.parents, lastRevision := 0, pendingMerges := [] }
+  | .t4to5 => { t with fmt := 5 }
+  | .t4or5to6 => { t with fmt := 6 }
+  | _ => t
+
+/-- the three `if isinstance(tree, …)` tests: all of them look at the tree
+object opened BEFORE any converter ran (it is not re-opened), so a format 3
+tree gets `3to4` only in this pass -/
+def treeSteps (old target : Nat) : List Step :=
+  let dirstateTarget := target == 4 || target == 5 || target == 6
+  let isDirstate := old == 4 || old == 5 || old == 6
+  (if old == 3 && dirstateTarget then [Step.t3to4] else []) ++
+  (if isDirstate && old != 5 && target == 5 then [Step.t4to5] else []) ++
+  (if isDirstate && old != 6 && target == 6 then [Step.t4or5to6] else [])
+
+/-- `CopyConverter` when the repository in this control directory is not of the target's class -/
+def passRepo (tg : UTarget) (u : ULoc) : ULoc × List Step :=
+  match u.repo with
+  | some r => if r == tg.repo then (u, []) else ({ u with repo := some tg.repo }, [Step.repoCopy])
+  | none => (u, [])
+
+def passBranch (tg : UTarget) : Option UBranch → Except UErr (Option UBranch × List Step)
+  | none => .ok (none, [])
+  | some b =>
+    match branchLoop 3 tg.branch b with
+    | .ok (b', ss) => .ok (some b', ss)
+    | .error e => .error e
+
+def passTree (tg : UTarget) : Option UTree → Option UTree × List Step
+  | none => (none, [])
+  | some t => (some ((treeSteps t.fmt tg.tree).foldl (fun t s => stepTree s t) t), treeSteps t.fmt tg.tree)
+
+/-- one `ConvertMetaToMeta.convert`: repository, then the branch loop, then the tree; an
+error in the branch loop leaves the repository converted -/
+def upgradePass (tg : UTarget) (u : ULoc) : ULoc × List Step × Option UErr :=
+  match passBranch tg (passRepo tg u).1.branch with
+  | .error e => ((passRepo tg u).1, (passRepo tg u).2, some e)
+  | .ok (b', s2) =>
+    ({ (passRepo tg u).1 with branch := b', tree := (passTree tg (passRepo tg u).1.tree).1 },
+     (passRepo tg u).2 ++ s2 ++ (passTree tg (passRepo tg u).1.tree).2, none)
+
+/-- `needs_format_conversion` (the control directory format itself is the same metadir format) -/
+def needsConversion (tg : UTarget) (u : ULoc) : Bool :=
+  (match u.repo with | some r => r != tg.repo | none => false) ||
+  (match u.branch with | some b => b.fmt != tg.branch | none => false) ||
+  (match u.tree with | some t => t.fmt != tg.tree | none => false)
+
+/-- `while self.controldir.needs_format_conversion(format): converter.convert(...)` -/
+def upgradeLoop : Nat → UTarget → ULoc → ULoc × List (List Step) × Option UErr
+  | 0, _, u => (u, [], none)
+  | fuel + 1, tg, u =>
+    if !needsConversion tg u then (u, [], none)
+    else match upgradePass tg u with
+      | (u', ss, some e) => (u', [ss], some e)
+      | (u', ss, none) =>
+        let r := upgradeLoop fuel tg u'
+        (r.1, ss :: r.2.1, r.2.2)
+
+/-- `Convert.convert`: UpToDateFormat when nothing needs converting -/
+def upgrade (tg : UTarget) (u : ULoc) : ULoc × List (List Step) × Option UErr :=
+  if !needsConversion tg u then (u, [], some .upToDate) else upgradeLoop 4 tg u
+
+/-- what is observed of an upgraded location -/
+structure UObs where
+  info : Option (Nat × Nat)
+  tags : Option Tags
+  locations : Option (Option Nat × Option Nat × Option Nat)
+  treeParents : Option (List Nat)
+  treeInv : Option Nat
+  revs : Nat
+  deriving DecidableEq, Repr
+
+def uobs (u : ULoc) : UObs :=
+  ⟨u.branch.map (·.info), u.branch.map (·.tagsSeen),
+   u.branch.map (fun b => (b.parent, b.bound, b.push)),
+   u.tree.map (·.parents), u.tree.map (·.inv), u.revs⟩
 
 end BreezyVerif.C52
